@@ -119,7 +119,7 @@ impl PosOracle for C08 {
 pub const RULE: &str = "every ARRIVAL (transition, transpositions included; paths through up to 2 null moves; each move applied through make_move_new and through the in-place make_move) at every state of the bounded trees, families and children: incrementally maintained get_hash() == get_hash() of the same position built from scratch through the builder; a run-wide map observable position -> hash must stay single-valued; get_hash() survives to_string/from_str; boards equal under == have equal std Hash output. distinct_nontrivial = distinct observable positions that were arrived at more than once (transpositions / repeated constructions)";
 
 pub fn run(tier: Tier) -> i32 {
-    let (run, oracle) = run_e1("C08", tier, COUNTERS, C08 { seen: ShardMap::new(), repeated: ShardMap::new() }, with_ep_slider_positions(standard_plan(tier, 1), tier), RULE, &["observable positions are keyed by a 128-bit fingerprint in the single-valuedness map"]);
+    let (run, oracle) = run_e1("C08", tier, COUNTERS, C08 { seen: ShardMap::new(), repeated: ShardMap::new() }, with_line_geometry(with_ep_slider_positions(standard_plan(tier, 1), tier), true, tier.pick(0, 1)), RULE, &["observable positions are keyed by a 128-bit fingerprint in the single-valuedness map"]);
     let distinct = oracle.seen.len() as u64;
     run.add("distinct_observable_positions", distinct);
     let arrivals = run.get("arrivals_compared_with_from_scratch");
